@@ -100,6 +100,8 @@ def write_pool(d, pool):
             doc.includes.append(neuroml.IncludeType(href=inc))
         for kind, cid in f.get("items", []):
             getattr(doc, kind).append(make_component(kind, cid))
+        if f.get("annotation"):
+            doc.annotation = neuroml.Annotation()
         if f.get("net"):
             doc.networks.append(build_network(f["net"]))
         if f["kind"] == "h5":
@@ -189,6 +191,57 @@ def use_doc(doc):
                 pass
 
 
+# ------------------------------------------------------------------------ class metadata invariant
+import neuroml.nml.nml as _nml  # noqa: E402
+
+_BINDING_CLASSES = [(n, c) for n, c in sorted(vars(_nml).items())
+                    if isinstance(c, type) and isinstance(vars(c).get("member_data_items_"), (list, dict))]
+
+
+_ALL_CLASSES = [(n, c) for n, c in sorted(vars(_nml).items()) if isinstance(c, type)]
+
+
+def meta_snapshot():
+    """(length, identity) of every class's own member_data_items_ and of every memo entry kept on the class objects"""
+    snap = {}
+    for n, c in _BINDING_CLASSES:
+        m = vars(c).get("member_data_items_")
+        snap[n + ".member_data_items_"] = [len(m), id(m)]
+        for k, v in vars(c).items():
+            if k.startswith("validate_") and k.endswith("_patterns_") and isinstance(v, list):
+                snap[n + "." + k] = [len(v), id(v)]
+    memo = {}
+    for n, c in _ALL_CLASSES:      # `cls.__all_members_ = {}` lands on whichever class called _get_members first
+        for k, v in vars(c).items():
+            if k.endswith("__all_members_") and isinstance(v, dict):
+                for key, val in v.items():
+                    memo["%s.%s[%s]" % (n, k, key)] = [len(val), id(val)]
+    return snap, memo
+
+
+def meta_diff(before, after):
+    out = []
+    (s0, m0), (s1, m1) = before, after
+    for k in s0:
+        if s1.get(k) != s0[k]:
+            out.append({"what": k, "before_len": s0[k][0], "after_len": (s1.get(k) or [None])[0],
+                        "same_object": (s1.get(k) or [None, None])[1] == s0[k][1]})
+    for k in m0:      # a memo entry, once set, never changes (new keys may appear)
+        if k not in m1 or m1[k] != m0[k]:
+            out.append({"what": "memo " + k, "before_len": m0[k][0], "after_len": (m1.get(k) or [None])[0],
+                        "same_object": (m1.get(k) or [None, None])[1] == m0[k][1]})
+    return out[:6]
+
+
+def run_call_checked(d, c):
+    before = meta_snapshot()
+    res = run_call(d, c)
+    ch = meta_diff(before, meta_snapshot())
+    if ch:
+        res["class_metadata_changed"] = ch
+    return res
+
+
 def run_call(d, c):
     path = os.path.join(d, c["name"])
     ai = c.get("ai")
@@ -250,7 +303,8 @@ def apply_op(nb, op):
         else:
             nb.handle_location(op[1], op[2], "comp", op[3], op[4], op[5])
     elif k == "proj":
-        nb.handle_projection(op[1], op[2], op[3], op[4], hasWeights=op[6], hasDelays=op[7], type=op[5])
+        pre = neuroml.SilentSynapse(id=op[8]) if len(op) > 8 and op[8] is not None else None
+        nb.handle_projection(op[1], op[2], op[3], op[4], hasWeights=op[6], hasDelays=op[7], type=op[5], pre_synapse_obj=pre)
     elif k == "conn":
         nb.handle_connection(op[1], op[2], op[3], op[4], None, op[5], op[6], delay=op[7], weight=op[8])
     elif k == "il":
@@ -492,7 +546,7 @@ def main():
     for job in payload.get("jobs", []):
         k = job["kind"]
         if k == "history":
-            r = in_child(lambda: {"results": [run_call(d, c) for c in job["calls"]]})
+            r = in_child(lambda: {"results": [run_call_checked(d, c) for c in job["calls"]]})
         elif k == "schedule":
             r = in_child(lambda: run_sched(job["sched"]))
         elif k == "solo":
